@@ -44,10 +44,10 @@ theorem radians_add_turns (u : ℝ) (j : ℤ) : (R.radians (u + 360 * j) : ℝ) 
 theorem sy_is_perp_component (x y xo yo x2 y2 s τ : ℝ) (hs : 0 ≤ s)
     (h1 : x2 - x = s * cos τ) (h2 : y2 - y = s * sin τ) :
     s2pEllSy (R.pi : ℝ) x y xo yo x2 y2 = s * |sin (τ - Complex.arg ⟨xo - x, yo - y⟩)| := by
-  simp only [s2pEllSy, hypot_sq, R.real_abs, R.real_cos, R.real_atan2, R.real_pi, R.real_ofNat]
-  have hlen : Real.sqrt ((x - x2) ^ 2 + (y - y2) ^ 2) = s := by
-    have : (x - x2) ^ 2 + (y - y2) ^ 2 = s ^ 2 := by
-      rw [len_rev, h1, h2]; nlinarith [sin_sq_add_cos_sq τ]
+  rw [s2pEllSy_eq]
+  have hlen : Real.sqrt ((x2 - x) ^ 2 + (y2 - y) ^ 2) = s := by
+    have : (x2 - x) ^ 2 + (y2 - y) ^ 2 = s ^ 2 := by
+      rw [h1, h2]; nlinarith [sin_sq_add_cos_sq τ]
     rw [this, Real.sqrt_sq hs]
   rw [hlen]
   rcases hs.eq_or_lt with h0 | hpos
@@ -57,7 +57,7 @@ theorem sy_is_perp_component (x y xo yo x2 y2 s τ : ℝ) (hs : 0 ≤ s)
     obtain ⟨k, hk⟩ := arg_polar s τ hpos
     rw [hk]
     set θ := Complex.arg ⟨xo - x, yo - y⟩
-    have e : θ - (τ + 2 * π * k - π / (2 : ℕ)) = (π / 2 - (τ - θ)) + (-k : ℤ) * (2 * π) := by
+    have e : θ - (τ + 2 * π * k - π / 2) = (π / 2 - (τ - θ)) + (-k : ℤ) * (2 * π) := by
       push_cast; ring
     rw [e, Real.cos_add_int_mul_two_pi, Real.cos_pi_div_two_sub]
 
@@ -89,11 +89,11 @@ theorem minor_sky (S : SphereLaws) (ra dec a b pa u : ℝ) (k k1 k2 : ℤ)
   obtain ⟨m1, hm1⟩ := S.bear_translate ra dec a pa ha0 ha1 hd
   obtain ⟨m2, hm2⟩ := S.bear_translate ra dec b (pa + 90 - u) hb0 hb1 hd
   have hg := S.gcd_translate ra dec b (pa + 90 - u) (by linarith [habs.1]) (by linarith [habs.2]) hb0.le hb1.le
-  simp only [p2sEllMinor, R.real_abs, R.real_cos, R.real_ofNat]
-  rw [S.gcd_periodic, S.bear_periodic, S.bear_periodic, hg, hm1, hm2]
-  have e : pa + 360 * (m1 : ℝ) - (pa + 90 - u + 360 * (m2 : ℝ) - ((90 : ℕ) : ℝ)) = u + 360 * ((m1 - m2 : ℤ) : ℝ) := by
-    push_cast; ring
-  rw [e, radians_add_turns, abs_cos_int _ _ hu]; ring
+  rw [p2sEllMinor_eq, S.gcd_periodic, S.bear_periodic, S.bear_periodic, hg, hm1, hm2]
+  have e : (pa + 360 * (m1 : ℝ) - (pa + 90 - u + 360 * (m2 : ℝ) - 90)) * (π / 180)
+      = (R.radians u : ℝ) + 2 * π * ((m1 - m2 : ℤ) : ℝ) := by
+    simp only [R.real_radians]; push_cast; ring
+  rw [e, abs_cos_int _ _ hu]; ring
 
 theorem abs_cos_radians_180 : |cos (R.radians (180 : ℝ) : ℝ)| = 1 := by
   have : (R.radians (180 : ℝ) : ℝ) = π := by simp only [R.real_radians]; field_simp
@@ -132,10 +132,10 @@ theorem ellipse_minor_roundtrip_mirror_partial (ra dec a b pa s : ℝ)
   set θ := Complex.arg ⟨o1.1 - c.1, o1.2 - c.2⟩ with hθ
   obtain ⟨hp1, hp2⟩ := hperp
   have h90 : ((R.ofNat 90 : ℝ)) = 90 := by simp
-  have hx : e.x = c.1 := by simp [e, sky2pixEllipse, s2pEllX, hc]
-  have hy : e.y = c.2 := by simp [e, sky2pixEllipse, s2pEllY, hc]
+  have hx : e.x = c.1 := by simp [e, sky2pixEllipse, s2pEllX_eq, hc]
+  have hy : e.y = c.2 := by simp [e, sky2pixEllipse, s2pEllY_eq, hc]
   have hth : e.theta = R.degrees θ := by
-    simp only [e, sky2pixEllipse, s2pEllAng, R.real_atan2, hθ, hc, ho1]
+    simp only [e, sky2pixEllipse, s2pEllAng_eq, R.real_degrees, hθ, hc, ho1]
   have hsy : e.sy = s := by
     have := sy_is_perp_component c.1 c.2 o1.1 o1.2 o2.1 o2.2 s (θ - π / 2) hs0 hp1 hp2
     simp only [e, sky2pixEllipse, h90, ← hc, ← ho1, ← ho2]
@@ -192,10 +192,10 @@ theorem ellipse_minor_roundtrip_partial (ra dec a b pa s : ℝ)
   obtain ⟨hp1, hp2⟩ := hperp
   obtain ⟨k2, hk2⟩ := hsym
   have h90 : ((R.ofNat 90 : ℝ)) = 90 := by simp
-  have hx : e.x = c.1 := by simp [e, sky2pixEllipse, s2pEllX, hc]
-  have hy : e.y = c.2 := by simp [e, sky2pixEllipse, s2pEllY, hc]
+  have hx : e.x = c.1 := by simp [e, sky2pixEllipse, s2pEllX_eq, hc]
+  have hy : e.y = c.2 := by simp [e, sky2pixEllipse, s2pEllY_eq, hc]
   have hth : e.theta = R.degrees θ := by
-    simp only [e, sky2pixEllipse, s2pEllAng, R.real_atan2, hθ, hc, ho1]
+    simp only [e, sky2pixEllipse, s2pEllAng_eq, R.real_degrees, hθ, hc, ho1]
   have hsy : e.sy = s := by
     have := sy_is_perp_component c.1 c.2 o1.1 o1.2 o2.1 o2.2 s (θ + π / 2) hs0 hp1 hp2
     simp only [e, sky2pixEllipse, h90, ← hc, ← ho1, ← ho2]
